@@ -213,7 +213,7 @@ def catalogue_c15(tier):
           timed(case('c15/interval-take_until-timer', T('take_until', ins=[iv(100), T('timer', 250, b=0)]), [[SL(800)]], tags=W), 250),
           timed(case('c15/interval-amb-timer', T('amb', ins=[iv(100), T('timer', 250, b=0)]), [[SL(450), UNSUB1, SL(500)]], tags=W), 250)]
     if tier == 'thorough':
-        cs += [timed(case('c15/interval-x3', T('take', 1, ins=[iv(100)]), [[SL(300), {'op': 'sub', 'u': 2}, SL(300), {'op': 'sub', 'u': 3}, SL(400)]], tags=W), 100),
+        cs += [timed(case('c15/interval-x3', T('take', 1, ins=[iv(100)]), [[SL(300), {'op': 'sub', 'u': 2}, SL(300), {'op': 'sub', 'u': 3}, SL(400)]], tags=['workers-repeat']), 100),
                timed(case('c15/observe_on-stacked-complete', T('observe_on', ins=[T('observe_on', ins=[S(1)])]), [items(1, 2) + [E(1, 'c')]], tags=W), 100),
                timed(case('c15/retry-interval', T('retry', 2, ins=[T('take', 1, ins=[iv(100)])]), [[SL(500)]], tags=W), 100)]
     return cs
@@ -236,7 +236,36 @@ def catalogue_c16(tier):
     return cs
 
 
-CATALOGUES = {'C08': catalogue_c08, 'C09': catalogue_c09, 'C15': catalogue_c15, 'C16': catalogue_c16, 'C18': catalogue_c18, 'C19': catalogue_c19, 'C05': catalogue_c05, 'C11': catalogue_c11, 'C12': catalogue_c12}
+def catalogue_c07(tier):
+    """multi-thread part of C07: every construct that owns shared state x thread patterns; the monitor is the runtime's verdict
+    (every call returned, every thread finished or is legitimately parked on a scheduler's condition variable)"""
+    cs = []
+    def pick(cat, n):
+        return [dict(c, name='c07/' + c['name']) for c in cat[:n]]
+    cs += pick(catalogue_c19(tier), 12 if tier == 'quick' else 60)
+    cs += pick(catalogue_c11(tier), 6 if tier == 'quick' else 20)
+    cs += pick(catalogue_c12(tier), 6 if tier == 'quick' else 20)
+    cs += pick(catalogue_c08(tier), 5 if tier == 'quick' else 20)
+    cs += pick(catalogue_c09(tier), 5 if tier == 'quick' else 20)
+    cs += pick(catalogue_c05(tier), 4 if tier == 'quick' else 20)
+    U2 = {'op': 'unsub', 'u': 2}
+    SUB2 = {'op': 'sub', 'u': 2}
+    # four threads: two emitters, a subscriber, an unsubscriber on one shared-state operator
+    ops = {'scan': T('scan', ins=[T('merge', ins=[S(1), S(2)])]), 'take': T('take', 3, ins=[T('merge', ins=[S(1), S(2)])]), 'zip': T('zip', ins=[S(1), S(2)]),
+           'buffer': T('buffer_with_count', 2, ins=[T('merge', ins=[S(1), S(2)])]), 'distinct': T('distinct_until_changed', ins=[T('merge', ins=[S(1), S(2)])]),
+           'take_last': T('take_last', 2, ins=[T('merge', ins=[S(1), S(2)])]), 'group_by': T('flat_map', f='obs', ins=[T('group_by', ins=[T('merge', ins=[S(1), S(2)])])]),
+           'window': T('flat_map', f='obs', ins=[T('window_with_count', 2, ins=[T('merge', ins=[S(1), S(2)])])]), 'concat': T('concat', ins=[S(1), S(2)]),
+           'amb': T('amb', ins=[S(1), S(2)]), 'flat_map': T('flat_map', f='just', ins=[T('merge', ins=[S(1), S(2)])]), 'skip_until': T('skip_until', ins=[S(1), S(2)]),
+           'sample': T('sample', ins=[S(1), S(2)]), 'retry': T('retry', 2, ins=[T('merge', ins=[S(1), S(2)])]), 'switch': T('switch_on_next', ins=[S(1), S(2)])}
+    for nm, root in ops.items():
+        cs.append(case('c07/4threads/%s' % nm, root, [items(1, 2) + [E(1, 'c')], items(2, 1) + [E(2, 'e', 5)], [SUB2], [{'op': 'unsub', 'u': 1}]]))
+    # connectables and subjects: subscribers coming and going while the source emits
+    for kind in ['plain', 'behavior', 'replay', 'async']:
+        cs.append(case('c07/subject-%s/sub-unsub-next-complete' % kind, S(1), [items(1, 2), [SUB2, U2], [{'op': 'unsub', 'u': 1}], [E(1, 'c')]], sbj=[kind]))
+    return cs
+
+
+CATALOGUES = {'C07': catalogue_c07, 'C08': catalogue_c08, 'C09': catalogue_c09, 'C15': catalogue_c15, 'C16': catalogue_c16, 'C18': catalogue_c18, 'C19': catalogue_c19, 'C05': catalogue_c05, 'C11': catalogue_c11, 'C12': catalogue_c12}
 
 
 # ------------------------------------------------------------------------------------------ engine
